@@ -190,7 +190,27 @@ def compare_table(t, eflr):
                     compare_attr(ec, gc, cell, tag, 'cell')
                 sub += [(s, 'attribute %d (%r, object characteristics %s): %s' % (j, te['label'], '-' if ec is None else (ec['present'] or 'none'), d))
                         for s, d in cell]
+            # the same cells by label (how LogPass, ToLAS and the summaries fetch CHANNEL, FRAME, PARAMETER attributes)
+            labels = [te['label'] for te in t['template']]
+            for j, lab in enumerate(labels):
+                if lab and labels.count(lab) == 1:
+                    try:
+                        by_label = go[bytes(lab)]
+                    except Exception as err:  # noqa
+                        sub.append(('lookup-by-label', 'object[%r] raises %r' % (lab, err)))
+                        break
+                    if by_label is not go.attrs[j]:
+                        sub.append(('lookup-by-label', 'object[%r] is not the cell of column %d' % (lab, j)))
+                        break
         out += [(s, 'object %d %r: %s' % (i, eo['name'], d)) for s, d in sub]
+    names = [tuple(o['name']) for o in t['objects']]
+    for i, go in enumerate(eflr.objects):
+        if names.count(names[i]) == 1:
+            try:
+                if eflr[go.name] is not go:
+                    out.append(('lookup-by-name', 'table[%r] is not object %d' % (go.name, i)))
+            except Exception as err:  # noqa
+                out.append(('lookup-by-name', 'table[%r] raises %r' % (go.name, err)))
     return out
 
 
